@@ -83,7 +83,7 @@ if [ $RC -eq 124 ] || [ $RC -eq 137 ]; then
 fi
 # the process died or a sanitizer spoke outside an oracle: a crash of the code under test is a violation, with the log as witness
 if grep -qE '^(panic:|fatal error:|WARNING: DATA RACE)|testing: race detected|^unexpected fault address|checkptr' "$LOG"; then
-  if grep -qE 'BROKEN ' "$LOG"; then tail -n 40 "$LOG"; exit 2; fi
+  if grep -qE 'BROKEN ' "$LOG" && ! grep -q 'WARNING: DATA RACE' "$LOG"; then tail -n 40 "$LOG"; exit 2; fi
   REP=$ROOT/replays/$ID-$TIER-seed$VERIF_SEED-crash.log
   cp "$LOG" "$REP"
   echo "VIOLATION property=$ID replay=$REP"
